@@ -170,6 +170,8 @@ pub enum UEnd {
 pub struct UStream {
     pub kind: UKind,
     pub type_form: usize,
+    /// varint form of the push id / session id that follows the type (push and WebTransport streams)
+    pub id_form: usize,
     pub frames: Vec<CTok>,
     pub end: UEnd,
 }
@@ -204,8 +206,15 @@ fn ustream_bytes(u: &UStream) -> Vec<u8> {
                 b.extend(ctok_bytes(*t));
             }
         }
-        UKind::Push => b.extend([0x01, 0x01, 0x02, 0x00, 0x00]), // push id + a HEADERS frame
-        UKind::WtUni => b.extend([0x00, b'w', b't']),            // session id 0 + payload
+        // the id that follows the type comes in every varint form (cut anywhere by the network)
+        UKind::Push => {
+            b.extend(rv::encode_form(1, u.id_form).unwrap());
+            b.extend([0x01, 0x02, 0x00, 0x00]); // a HEADERS frame
+        }
+        UKind::WtUni => {
+            b.extend(rv::encode_form(0, u.id_form).unwrap());
+            b.extend([b'w', b't']);
+        }
         UKind::Encoder | UKind::Decoder => {}
         UKind::Grease | UKind::Unknown => b.extend(b"whatever bytes \x00\x04\x00"),
     }
@@ -617,7 +626,7 @@ fn viol(rep: &mut Report, rule: &str, detail: String, case: &serde_json::Value) 
 fn describe(script: &[UStream], h3_is_client: bool, mode: &Mode) -> serde_json::Value {
     json!({
         "h3_role": if h3_is_client { "client" } else { "server" },
-        "streams": script.iter().map(|u| json!({"type": format!("{:?}", u.kind), "type_varint_form": u.type_form, "frames": u.frames.iter().map(|t| format!("{:?}", t)).collect::<Vec<_>>(), "end": format!("{:?}", u.end), "bytes": hex_short(&ustream_bytes(u), 24)})).collect::<Vec<_>>(),
+        "streams": script.iter().map(|u| json!({"type": format!("{:?}", u.kind), "type_varint_form": u.type_form, "id_varint_form": u.id_form, "frames": u.frames.iter().map(|t| format!("{:?}", t)).collect::<Vec<_>>(), "end": format!("{:?}", u.end), "bytes": hex_short(&ustream_bytes(u), 24)})).collect::<Vec<_>>(),
         "mode": {"credit": format!("{:?}", mode.credit), "backpressure": mode.backpressure, "stall_grease_stream": mode.stall_grease_stream, "grease": mode.grease},
     })
 }
@@ -740,6 +749,7 @@ fn gen_stream(rng: &mut Rng) -> UStream {
     let kind = *rng.pick(&[UKind::Control, UKind::Control, UKind::Encoder, UKind::Decoder, UKind::WtUni, UKind::Grease, UKind::Unknown, UKind::NoType, UKind::Push]);
     UStream {
         kind,
+        id_form: *rng.pick(&[1usize, 2, 4, 8]),
         type_form: if kind == UKind::NoType { rng.usize(8) } else { *rng.pick(&[1usize, 2, 4, 8]) },
         frames: if kind == UKind::Control { gen_ctl_frames(rng, 4) } else { vec![] },
         end: match rng.below(4) {
@@ -758,7 +768,7 @@ fn run_case(gen: &str, index: u64, seed: u64, _tier: Tier, rep: &mut Report) {
             let h3_is_client = index % 2 == 0;
             let frames = ctl_seq_from_index(index / 2);
             for end in [UEnd::Open, UEnd::Fin, UEnd::Reset(0x10c)] {
-                let s = vec![UStream { kind: UKind::Control, type_form: *rng.pick(&[1usize, 2, 4, 8]), frames: frames.clone(), end }];
+                let s = vec![UStream { kind: UKind::Control, type_form: *rng.pick(&[1usize, 2, 4, 8]), id_form: 1, frames: frames.clone(), end }];
                 check_script(&s, h3_is_client, &plain, rng.next(), rep);
             }
         }
@@ -780,7 +790,7 @@ fn run_case(gen: &str, index: u64, seed: u64, _tier: Tier, rep: &mut Report) {
                 }
                 frames.push(CTok::Goaway(*rng.pick(pool)));
             }
-            let s = vec![UStream { kind: UKind::Control, type_form: 1, frames, end: UEnd::Open }];
+            let s = vec![UStream { kind: UKind::Control, type_form: 1, id_form: 1, frames, end: UEnd::Open }];
             let mode = Mode { credit: *rng.pick(&[CreditMode::Unlimited, CreditMode::Exactly3, CreditMode::Late]), backpressure: rng.bool(), stall_grease_stream: rng.chance(1, 4), grease: true };
             check_script(&s, h3_is_client, &mode, rng.next(), rep);
         }
@@ -797,9 +807,9 @@ fn run_case(gen: &str, index: u64, seed: u64, _tier: Tier, rep: &mut Report) {
             if rng.chance(1, 3) {
                 frames.push(CTok::Unknown);
             }
-            let mut s = vec![UStream { kind: UKind::Control, type_form: *rng.pick(&[1usize, 2, 4, 8]), frames, end: UEnd::Open }];
+            let mut s = vec![UStream { kind: UKind::Control, type_form: *rng.pick(&[1usize, 2, 4, 8]), id_form: 1, frames, end: UEnd::Open }];
             if rng.bool() {
-                s.push(UStream { kind: *rng.pick(&[UKind::Encoder, UKind::Decoder, UKind::Grease, UKind::Unknown]), type_form: *rng.pick(&[1usize, 2, 4, 8]), frames: vec![], end: UEnd::Open });
+                s.push(UStream { kind: *rng.pick(&[UKind::Encoder, UKind::Decoder, UKind::Grease, UKind::Unknown, UKind::WtUni]), type_form: *rng.pick(&[1usize, 2, 4, 8]), id_form: *rng.pick(&[1usize, 2, 4, 8]), frames: vec![], end: UEnd::Open });
             }
             let mode = Mode { credit: *rng.pick(&[CreditMode::Exactly3, CreditMode::Late, CreditMode::Unlimited]), backpressure: rng.bool(), stall_grease_stream: rng.chance(1, 3), grease: true };
             check_script(&s, h3_is_client, &mode, rng.next(), rep);
